@@ -38,6 +38,7 @@ def generate(rng, tier):
     # enter context while the Doist is still entering its doers, and doers whose own exit contexts raise
     out += sc.gen_enter_effects(rng, 40 * n)
     out += sc.gen_hookraise(rng, 30 * n)
+    out += sc.gen_sysexit(rng, 40 * n)      # a doer calling sys.exit(): the same forced exits and the same SystemExit
     return out
 
 
